@@ -5,7 +5,7 @@ Require Import TT.Model.Str TT.Model.C08Fingerprint TT.Model.C08Run.
 Import ListNotations.
 
 Definition c17_trace (p : project) (c : config) (h : list hstep) : list hobs :=
-  trace false (init_state p c, None) h.
+  trace true (init_state p c, None) h.
 (* position of a file in the write plan (None: not written under these inputs) *)
 Fixpoint index_of (f : fname) (l : list (fname * tree)) (n : nat) : option nat :=
   match l with [] => None | (g, _) :: r => if fname_eqb f g then Some n else index_of f r (S n) end.
